@@ -1,5 +1,6 @@
 """C15 — parent and child (extension) stores stay consistent."""
 from . import common
+from . import universe
 
 MODULE = "StorageModel.Properties.C15"
 THEOREMS = [
@@ -371,6 +372,7 @@ def run(ctx, replay_cases=None):
     })
     ctx.obligation("correspondence: implementation output = model output on every generated history", ncorr == 0,
                    f"{ncorr} disagreement(s)")
+    universe.universe_stream(ctx, ["C15"])  # end of the generated-cases phase: the shared universe stream
     unknown = []
     for b in spec_bad:
         if common.classify(ctx, MATCHERS, b[0], {"impl": b[1], "model": b[2], "spec": b[3]}) is None:
